@@ -203,10 +203,10 @@ Definition copy_node (R : list ref) (base : nat) (nd : node) : node :=
   mkNode (uid nd) (label nd) (if uniq nd then dedupe ps else ps) (uniq nd).
 
 (* copy.deepcopy(node): an isomorphic fresh sub-heap appended to the heap, every field kept;
-   the i-th object met gets reference length h + i, so the copy of n is length h *)
+   the i-th object met gets reference length h + i (n itself is met first) *)
 Definition deepcopy (h : heap) (n : ref) : res (heap * ref) :=
   bind (closure h n) (fun R =>
-  Ok (h ++ map (fun r => copy_node R (length h) (get h r)) R, length h)).
+  Ok (h ++ map (fun r => copy_node R (length h) (get h r)) R, rename R (length h) n)).
 
 (* str(uuid4()): a uid that occurs nowhere in the heap *)
 Definition fresh_uid (h : heap) : nat := S (fold_right (fun nd m => Nat.max (uid nd) m) 0 h).
